@@ -64,6 +64,21 @@ CLAIMED = {
    text="Valid programs defining and using labels (3 segments), .equ (chained, forward), .set (reassignment chains) and .def/.undef aliases in independently random letter case must build to the reference resolution; every program is mutated one symbol at a time — each referenced definition deleted, each label duplicated, each alias used after its .undef, undefined names in data/instruction/alias position (all must fail) — and every alias replaced by its register (identical image).",
    note="Trusted base: refmodel/layout.rs binding rules. Re-.def of a live alias without .undef and name clashes across kinds are not generated (not specified).",
    design="§6 C10"),
+ "C11": dict(
+   technique="metamorphic + reference monitor over generated file trees on disk (runtime execution of build_file; INCLUDE hook events as evidence)",
+   text="Generated programs are cut at item boundaries into trees of files (up to 5 deep) written to a scratch directory, each file placed by one documented search rule (absolute path, includer's directory, caller-supplied directory, earlier absolute or relative .includepath); build_file(tree) must equal build_str(flattened program) and the reference (images, sizes, RAM extent, messages with per-file line numbers); `.exit` tails with garbage must have no effect; removing one reachable file must fail with an error naming it.",
+   note="Unique file names per tree; an .includepath inside an included file is only relied on for that file's own includes; chains and macro definitions are not cut across files. Trusted base: refmodel/layout.rs include/.exit semantics.",
+   design="§6 C11"),
+ "C14": dict(
+   technique="metamorphic monitor: canonical vs randomly respelled print of the same program IR (runtime execution of build_str)",
+   text="Programs from the layout, data, conditional, macro and symbol generators (valid and failing) are printed canonically and 8 (thorough 16) times with randomised meaning-free spelling (comments of all three kinds with hostile texts, blank/comment-only lines, LF/CRLF, letter case, literal radix, blanks and tabs around every token class incl. after unary operators and in displacements); images, sizes, RAM extent, Ok/Err status and messages (line numbers removed) must be identical.",
+   note="Respelling is done by the IR printer, so strings, character literals and macro bodies are never damaged. Directive names, #define names, macro names, label definitions and indentation before a label are not respelled (not listed by the statement).",
+   design="§6 C14"),
+ "C15": dict(
+   technique="fault-injection monitor over every line position x fault kind of generated valid programs (runtime execution of build_str, error-text oracle)",
+   text="Into valid base programs one faulty line of each of 21 kinds is inserted at every position on the assembling path (top level and inside taken branches); the build must fail and the error text must contain the token `line: p`. Message placements (.message/.warning at top level and in taken/untaken branches) must leave the images unchanged and yield exactly the expected message list (text, line, order, kinds distinguishable); .error must fail wherever assembled.",
+   note="Programs start with a comment so p >= 2 (PEG errors embed `line: 1`); for duplicate labels either defining line is accepted; no macros (attribution not specified).",
+   design="§6 C15"),
 }
 
 PENDING_REASON = "check not built yet in this round (work in progress; design in DESIGN.md §6)"
